@@ -10,7 +10,10 @@ behaviourally identical ones (DESIGN.md section 5, must-stay-silent corpus):
 * ``K == x`` (constant left)     ->  ``x == K``  (also != / is / is not);
   two non-constant operands of == / != are put in text order
 * ``not (a <op> b)``             ->  the negated comparison
+* tests of if / while / assert / conditional expressions are put in negation
+  normal form (``not (a and b)`` -> ``not a or not b``, ``not not a`` -> ``a``)
 * ``pass`` next to other statements is dropped
+* ``if a:`` whose whole body is ``if b: S`` (no else on either)  ->  ``if a and b: S``
 * ``t = A if C else B`` / ``t += ..`` / ``return ..`` with a conditional
   expression becomes the if / else statement
 * ``t = <pure expression>`` (no calls; operands not rebound afterwards; t bound
@@ -65,6 +68,50 @@ class _Canon(ast.NodeTransformer):
             pass        # `not not x` is a bool() cast, keep
         return node
 
+    def _nnf(self, t):
+        """Negation normal form of an expression in *test position* (where
+        only its truth matters): `not (a and b)` -> `not a or not b`,
+        `not not a` -> `a`, negated comparisons negated, nested and/or of
+        the same kind flattened."""
+        if isinstance(t, ast.UnaryOp) and isinstance(t.op, ast.Not):
+            x = t.operand
+            if isinstance(x, ast.UnaryOp) and isinstance(x.op, ast.Not):
+                return self._nnf(x.operand)
+            if isinstance(x, ast.BoolOp):
+                dual = ast.Or() if isinstance(x.op, ast.And) else ast.And()
+                vals = [self._nnf(ast.copy_location(
+                    ast.UnaryOp(op=ast.Not(), operand=v), v)) for v in x.values]
+                return self._flat(ast.copy_location(ast.BoolOp(op=dual, values=vals), t))
+            if isinstance(x, ast.Compare) and len(x.ops) == 1 and type(x.ops[0]) in _NEG:
+                x.ops = [_NEG[type(x.ops[0])]()]
+                return self.visit_Compare(ast.copy_location(x, t))
+            return t
+        if isinstance(t, ast.BoolOp):
+            t.values = [self._nnf(v) for v in t.values]
+            return self._flat(t)
+        return t
+
+    @staticmethod
+    def _flat(b):
+        vals = []
+        for v in b.values:
+            if isinstance(v, ast.BoolOp) and type(v.op) is type(b.op):
+                vals.extend(v.values)
+            else:
+                vals.append(v)
+        b.values = vals
+        return b
+
+    def visit_While(self, node):
+        self.generic_visit(node)
+        node.test = self._nnf(node.test)
+        return node
+
+    def visit_Assert(self, node):
+        self.generic_visit(node)
+        node.test = self._nnf(node.test)
+        return node
+
     def _positive(self, test):
         """(test', flipped): the positive spelling of a two-way test --
         `not C` -> C, `!=` -> `==`, `is not` -> `is`, `not in` -> `in`,
@@ -96,6 +143,7 @@ class _Canon(ast.NodeTransformer):
 
     def visit_If(self, node):
         self.generic_visit(node)
+        node.test = self._nnf(node.test)
         if node.orelse:
             # (also for `elif` chains: `else: if ..` and `elif ..` are the
             # same tree, so the form must not depend on it)
@@ -106,6 +154,7 @@ class _Canon(ast.NodeTransformer):
 
     def visit_IfExp(self, node):
         self.generic_visit(node)
+        node.test = self._nnf(node.test)
         node.test, flipped = self._positive(node.test)
         if flipped:
             node.body, node.orelse = node.orelse, node.body
@@ -415,9 +464,31 @@ def _expand_ifexp(tree):
     rec(tree)
 
 
+def _merge_nested_ifs(tree):
+    """`if a:` whose whole body is `if b: S` (neither has an else)  ->
+    `if a and b: S`."""
+    changed = True
+    while changed:
+        changed = False
+        for n in ast.walk(tree):
+            if isinstance(n, ast.If) and not n.orelse and len(n.body) == 1 and \
+                    isinstance(n.body[0], ast.If) and not n.body[0].orelse:
+                inner = n.body[0]
+                vals = []
+                for t in (n.test, inner.test):
+                    if isinstance(t, ast.BoolOp) and isinstance(t.op, ast.And):
+                        vals.extend(t.values)
+                    else:
+                        vals.append(t)
+                n.test = ast.copy_location(ast.BoolOp(op=ast.And(), values=vals), n.test)
+                n.body = inner.body
+                changed = True
+
+
 def normalise(tree):
     _drop_pass(tree)
     _expand_ifexp(tree)
+    _merge_nested_ifs(tree)
     for fn in [n for n in ast.walk(tree)
                if isinstance(n, (ast.FunctionDef, ast.AsyncFunctionDef))]:
         for _ in range(4):
